@@ -86,8 +86,7 @@ def r1_handlers(report, repo):
   report.expect_instances(rule, n, 1, 'RecordHandler installations')
   f = repo.func(LG, 'initialize_record_handler')
   ah = core.calls_in(f.node, attr='addHandler')
-  ok = len(ah) == 1 and not any(isinstance(p, (ast.For, ast.While))
-                                for p in core.parents(ah[0]))
+  ok = len(ah) == 1 and not core.repeated_by_loop(ah[0])
   if ok:
     rh = [x for x in ast.walk(ah[0]) if isinstance(x, ast.Call) and
           last_attr(x) == 'RecordHandler'][0]
